@@ -286,7 +286,7 @@ def _run(ctx, scratch):
     kills = {k[5:]: v for k, v in cnt.items() if k.startswith("kill@")}
     ctx.ev.add_impl("kill/restart chains of real engine processes accepted by SqliteEngineTrace", accepted,
                     steps=res["steps"], generations=cnt.get("generations", 0), kills_by_point=kills,
-                    torn_tails=cnt.get("torn_tail", 0), cut_lines=cnt.get("cut_lines", 0),
+                    torn_tails=cnt.get("torn_tail", 0), cut_lines=cnt.get("cut_lines", 0), sqlite_busy=cnt.get("sqlite_busy", 0),
                     run_classes=res.get("distinct"))
     for s in res.get("samples", [])[:2]:
         ctx.ev.sample(s)
@@ -301,6 +301,9 @@ def _run(ctx, scratch):
                   "its COMMIT is trusted to be atomic under SIGKILL")
     ctx.ev.assume("'durable binlog' is observed through Engine.Commit (called after fsync): a COMMIT, an acknowledgement or "
                   "a View result ahead of the last Engine.Commit is reported even if the bytes had reached the file")
+    ctx.ev.assume("SQLITE_BUSY after the 5 s busy timeout (rollback journal: readers and the committing writer exclude each "
+                  "other, unlike WAL2) is a stand-in artefact: a reader skips that observation, a broken write connection "
+                  "ends the generation with a kill and the files are judged as after any kill (counted: sqlite_busy)")
     ctx.ev.assume("fsbinlog's own format, rotation and torn writes are C18's subject: no rotation here (1 GiB chunks), a "
                   "binlog whose last write was cut inside a record is counted (torn_tails) and not judged")
 
